@@ -192,11 +192,12 @@ Definition violations (c : cfg) (em : bool) (pr ew : nat) (groups : list (N * li
   (* tracked > Max, reported where the count grows beyond Max. The known
      "forks in flight are not counted" (151) only when the count grew by a fork
      completion, no tracked worker was forked on the request of a round that
-     asked for more than its free slots, and the forks in flight account for
-     the excess (Props bound_partial: tracked + in flight <= Max + peak - 1,
+     asked for more than its free slots, the event model arrives at the same
+     count, and the forks in flight account for the excess (Props bound_partial: tracked + in flight <= Max + peak - 1,
      here with the implementation's tracked count) *)
   (if negb (bound_ok c (o_tracked o)) && (prev <? o_tracked o)
    then [(2, if is_ins (o_ev o) && negb (tainted_pool (taint_next c tn o) s')
+                && (o_tracked o =? tracked s')
                 && (s_foreign s' || bound_partial_obs c (o_tracked o) s')
              then 151 else 150)]
    else [])
